@@ -76,7 +76,7 @@ pub fn run() {
     // 2. BFS on the toy model: 36 states, planted violation found with a shortest trace,
     //    gone when the plant is removed
     let toy = Toy { plant: true };
-    let (st, found) = Search { threads: 2, ..Search::new(&toy) }.run(vec![(0, 0)], |_, _| {});
+    let (st, found) = Search { threads: 2, stop_on_violation: false, ..Search::new(&toy) }.run(vec![(0, 0)], |_, _| {});
     if st.states != 35 || !st.closed {
         // the violating state (5,5) is reported, not stored
         fail(&format!("toy BFS: {} states", st.states));
@@ -89,6 +89,11 @@ pub fn run() {
     match crate::bfs::replay(&toy, &(0, 0), &mut tr) {
         Ok(Some(_)) => {}
         other => fail(&format!("toy BFS replay: {:?}", other.map(|v| v.map(|x| x.message)))),
+    }
+    // early stop: same shortest counterexample, search ends with the violating layer
+    let (st3, found3) = Search { threads: 2, ..Search::new(&toy) }.run(vec![(0, 0)], |_, _| {});
+    if found3.len() != 1 || found3[0].trace.len() != 8 || st3.closed {
+        fail("toy BFS with early stop");
     }
     let toy = Toy { plant: false };
     let (st2, found2) = Search { threads: 3, ..Search::new(&toy) }.run(vec![(0, 0)], |_, _| {});
